@@ -6,6 +6,99 @@ import EPV.Lemmas.ArithMixed
 open EPV.FOArith
 namespace EPV.Arith
 
+theorem isPySpace_eq : isPySpace = isXmlSpace := by funext c; rfl
+
+theorem scanMantissa_nondigit (c : Char) (t : List Char) (h1 : c.isDigit = false) (h2 : c ≠ '.') :
+    scanMantissa (c :: t) = none := by
+  unfold scanMantissa
+  have hs : (c :: t).span Char.isDigit = ([], c :: t) := by simp [List.span, List.span.loop, h1]
+  simp only [hs]
+  split
+  · rename_i r' heq
+    injection heq with h _
+    exact absurd h h2
+  · simp
+
+theorem scanMantissa_nil : scanMantissa [] = none := by
+  simp [scanMantissa, List.span, List.span.loop]
+
+theorem splitMinus_minus (t : List Char) : splitMinus ('-' :: t) = (true, t) := rfl
+theorem splitSign_minus (t : List Char) : splitSign ('-' :: t) = (true, t) := rfl
+theorem splitMinus_other (c : Char) (t : List Char) (h : c ≠ '-') : splitMinus (c :: t) = (false, c :: t) := by
+  unfold splitMinus
+  split
+  · rename_i t' heq; injection heq with e _; exact absurd e h
+  · rfl
+theorem splitSign_other (c : Char) (t : List Char) (h : c ≠ '-') (h2 : c ≠ '+') : splitSign (c :: t) = (false, c :: t) := by
+  unfold splitSign
+  split
+  · rename_i t' heq; injection heq with e _; exact absurd e h
+  · rename_i t' heq; injection heq with e _; exact absurd e h2
+  · rfl
+
+theorem body_eq (R : Rounding) (neg : Bool) (m : Option (List Char × List Char × List Char)) :
+    (if matchesBody m = true then getDoubleBody R neg m else Dbl.nan) = number10Body R neg m := by
+  rcases m with _ | ⟨i, f, rest⟩
+  · simp [matchesBody, number10Body]
+  · cases rest with
+    | nil => simp [matchesBody, number10Body, getDoubleBody, scanExp]
+    | cons x xs => simp [matchesBody, number10Body]
+
+theorem matchesBody_some (m : Option (List Char × List Char × List Char)) (h : matchesBody m = true) :
+    m ≠ none := by
+  intro e; subst e; simp [matchesBody] at h
+
+/-- the string→number conversion of the 1.0 parser (`XPATH1_NUMBER_PATTERN` then `get_double`) IS XPath 1.0
+number(), for every string -/
+theorem pyNumber_eq_number10 (R : Rounding) (cs : List Char) : pyNumber R cs = number10 R cs := by
+  unfold pyNumber matches10 getDouble number10
+  rw [isPySpace_eq]
+  generalize stripWith isXmlSpace cs = s
+  simp only []
+  by_cases hmb : matchesBody (scanMantissa (splitMinus s).2) = true
+  · rw [if_pos hmb]
+    have hsome := matchesBody_some _ hmb
+    cases s with
+    | nil => simp [splitMinus, scanMantissa_nil] at hsome
+    | cons c t =>
+      by_cases hm : c = '-'
+      · subst hm
+        rw [splitMinus_minus] at hmb hsome ⊢
+        have hne : t ≠ ['I', 'N', 'F'] := by
+          intro e; rw [e] at hsome
+          exact hsome (scanMantissa_nondigit 'I' _ (by decide) (by decide))
+        have n1 : ('-' :: t) ≠ ['I', 'N', 'F'] := by intro e; injection e with e1 _; revert e1; decide
+        have n2 : ('-' :: t) ≠ ['-', 'I', 'N', 'F'] := by intro e; injection e with _ e2; exact hne e2
+        have n3 : ('-' :: t) ≠ ['N', 'a', 'N'] := by intro e; injection e with e1 _; revert e1; decide
+        rw [if_neg n1, if_neg n2, if_neg n3, splitSign_minus]
+        have := body_eq R true (scanMantissa t)
+        rw [if_pos hmb] at this
+        exact this
+      · rw [splitMinus_other c t hm] at hmb hsome ⊢
+        have hd : c.isDigit = true ∨ c = '.' := by
+          by_cases h1 : c.isDigit = true
+          · exact Or.inl h1
+          · by_cases h2 : c = '.'
+            · exact Or.inr h2
+            · have h1' : c.isDigit = false := by simpa using h1
+              exact absurd (scanMantissa_nondigit c t h1' h2) hsome
+        have n1 : (c :: t) ≠ ['I', 'N', 'F'] := by
+          intro e; injection e with e1 _; subst e1; rcases hd with h | h <;> revert h <;> decide
+        have n2 : (c :: t) ≠ ['-', 'I', 'N', 'F'] := by intro e; injection e with e1 _; exact hm e1
+        have n3 : (c :: t) ≠ ['N', 'a', 'N'] := by
+          intro e; injection e with e1 _; subst e1; rcases hd with h | h <;> revert h <;> decide
+        have hplus : c ≠ '+' := by
+          intro e; subst e; rcases hd with h | h <;> revert h <;> decide
+        rw [if_neg n1, if_neg n2, if_neg n3, splitSign_other c t hm hplus]
+        have := body_eq R false (scanMantissa (c :: t))
+        rw [if_pos hmb] at this
+        exact this
+  · rw [if_neg hmb]
+    have := body_eq R (splitMinus s).1 (scanMantissa (splitMinus s).2)
+    rw [if_neg hmb] at this
+    exact this
+
+
 /-- the operand is a double or a string (not an integer/decimal literal) -/
 def isDblOpnd : Opnd → Bool
   | .num (.dbl _) => true
@@ -23,40 +116,34 @@ theorem conv10_dbl (R : Rounding) (a : Opnd) (h : isDblOpnd a = true) : conv10 R
   | num n => cases n <;> simp_all [isDblOpnd, conv10, opndDbl]
   | str cs => rfl
 
-theorem spec10_dbl (R : Rounding) (a : Opnd) (h : isDblOpnd a = true) (hs : trigF06s R a = false) :
+theorem spec10_dbl (R : Rounding) (a : Opnd) (h : isDblOpnd a = true) :
     (absOpnd a).toDbl R = opndDbl R a := by
   cases a with
   | num n => cases n <;> simp_all [isDblOpnd, absOpnd, Opnd10.toDbl, opndDbl]
-  | str cs =>
-    simp only [trigF06s, Bool.not_eq_false', beq_iff_eq] at hs
-    simp [absOpnd, Opnd10.toDbl, opndDbl, hs]
+  | str cs => simp [absOpnd, Opnd10.toDbl, opndDbl, pyNumber_eq_number10]
 
-/-- PARTIAL (F06s, F06x): XPath 1.0 arithmetic on double and string operands — strings converted with
-number(), then IEEE arithmetic — for `+ - * div mod`, all doubles and all strings on which the two
-string→number conversions agree. -/
+/-- XPath 1.0 arithmetic on double and string operands — strings converted with number(), then IEEE
+arithmetic — for `+ - * div mod`, ALL doubles and ALL strings. -/
 theorem v10_ops_eq_spec10 (R : Rounding) (op : BinOp) (hop : op ≠ .idiv) (a b : Opnd)
-    (ha : isDblOpnd a = true) (hb : isDblOpnd b = true)
-    (hsa : trigF06s R a = false) (hsb : trigF06s R b = false)
-    (hw : (opndDbl R a).wf)
-    (hx : trigF06x R .v10 op (.dbl (opndDbl R a)) (.dbl (opndDbl R b)) = false) :
+    (ha : isDblOpnd a = true) (hb : isDblOpnd b = true) (hw : (opndDbl R a).wf) :
     (model10Bin R op a b).map absNum = spec10Bin R op (absOpnd a) (absOpnd b) := by
   unfold model10Bin spec10Bin
-  rw [conv10_dbl R a ha, conv10_dbl R b hb, spec10_dbl R a ha hsa, spec10_dbl R b hb hsb]
+  rw [conv10_dbl R a ha, conv10_dbl R b hb, spec10_dbl R a ha, spec10_dbl R b hb]
   cases op with
   | add => exact (addsubmul_dbl_eq_spec R _ _).1
   | sub => exact (addsubmul_dbl_eq_spec R _ _).2.1
   | mul => exact (addsubmul_dbl_eq_spec R _ _).2.2
   | div => exact div_dbl_eq_spec R .v10 _ _ hw
   | idiv => exact absurd rfl hop
-  | mod => exact mod_dbl_eq_spec_partial R .v10 _ _ hx
+  | mod => exact mod_dbl_eq_spec R .v10 _ _
 
 /-- unary minus, floor, ceiling, round of XPath 1.0 on a double or string operand -/
 theorem v10_unops_eq_spec10 (R : Rounding) (op : UnOp) (hop : op = .neg ∨ op = .floor ∨ op = .ceiling ∨ op = .round 0)
-    (a : Opnd) (ha : isDblOpnd a = true) (hsa : trigF06s R a = false)
+    (a : Opnd) (ha : isDblOpnd a = true)
     (hk : trigF06p op (.dbl (opndDbl R a)) = false) :
     absNum (model10Un R op a) = spec10Un R op (absOpnd a) := by
   unfold spec10Un
-  rw [spec10_dbl R a ha hsa]
+  rw [spec10_dbl R a ha]
   rcases hop with rfl | rfl | rfl | rfl
   · simp only [model10Un, conv10_dbl R a ha]; rfl
   · simp only [model10Un, conv10_dbl R a ha, toDbl10, modelUn]
@@ -82,15 +169,9 @@ theorem v10_exact_literals_fail :
   refine ⟨by decide +kernel, by decide +kernel, by decide +kernel, by decide +kernel, by decide +kernel,
     by decide +kernel⟩
 
-/-- F06s witness: `'1e3'` is 1000 for the implementation, NaN for XPath 1.0 number() -/
-theorem v10_string_exponent_fails :
-    trigF06s ieee (.str ['1', 'e', '3']) = true ∧ pyNumber ieee ['1', 'e', '3'] = .fin 1000 ∧
-    number10 ieee ['1', 'e', '3'] = .nan := by
-  refine ⟨by decide +kernel, by decide +kernel, by decide +kernel⟩
-
-/-- the hypotheses of `v10_ops_eq_spec10` are satisfiable: `' 3.5 ' div '-.5'` = -7 -/
-example : trigF06s ieee (.str [' ', '3', '.', '5', ' ']) = false ∧ trigF06s ieee (.str ['-', '.', '5']) = false ∧
-    model10Bin ieee .div (.str [' ', '3', '.', '5', ' ']) (.str ['-', '.', '5']) = .ok (.dbl (.fin (-7))) := by
-  refine ⟨by decide +kernel, by decide +kernel, by decide +kernel⟩
+/-- tests (literals): `' 3.5 ' div '-.5'` = -7; `'1e3'`, `'+3'`, `'INF'` are NaN as in XPath 1.0 -/
+example : model10Bin ieee .div (.str [' ', '3', '.', '5', ' ']) (.str ['-', '.', '5']) = .ok (.dbl (.fin (-7))) ∧
+    pyNumber ieee ['1', 'e', '3'] = .nan ∧ pyNumber ieee ['+', '3'] = .nan ∧ pyNumber ieee ['I', 'N', 'F'] = .nan := by
+  refine ⟨by decide +kernel, by decide +kernel, by decide +kernel, by decide +kernel⟩
 
 end EPV.Arith
